@@ -36,7 +36,7 @@ def showState (s : State) : String :=
     " b2[" ++ joinSep "," (s.bal2.map fun e => s!"{e.1}={e.2}") ++ s!"] s2={s.supply2}") ++
   -- the governance-controlled state: the tracked parameters, the DAO owner, the upgrade plan, the access-control list
   s!" gov[ms={s.p.minStake},mv={s.p.maxVals},ut={s.p.unstakingTime},w={s.p.window},mspw={s.p.minSignedRaw},jd={s.p.jailDur}," ++
-  s!"mea={s.p.maxAge},sfds={s.p.sfDouble},sfdt={s.p.sfDown},memo={s.p.maxMemo},daoo={s.daoOwner},upg={s.upgrade.1}:{s.upgrade.2}]" ++
+  s!"mea={s.p.maxAge},sfds={s.p.sfDouble},sfdt={s.p.sfDown},memo={s.p.maxMemo},tsl={s.p.txSigLimit},daoo={s.daoOwner},upg={s.upgrade.1}:{s.upgrade.2}]" ++
   " acl[" ++ joinSep "," (s.acl.map fun e => s!"{e.1}={e.2}") ++ "]"
 
 structure ChainProg where
@@ -79,20 +79,28 @@ def parseMissed : List String → List ((Addr × Int) × Bool)
   | _ :: rest => parseMissed rest
   | [] => []
 
+/-- `ksh=<shape>;<shape>;…`: the shape of every key in index order, `p` a plain key, `m(..,..)` a multisignature key
+over its components; the number of keys below a key is the number of `p` and `m` in its shape, less itself -/
+def keyNodesOf (ksh : String) : List (Nat × Nat) :=
+  if ksh == "" then [] else
+  let shapes := ksh.splitOn ";"
+  (List.range shapes.length).zip (shapes.map fun sh => (sh.toList.filter fun c => c == 'p' || c == 'm').length - 1)
+
 def initState (toks : List String) (mods keys : List String) : State × List (Addr × Int) :=
   let (accs, vals) := parseGenesis toks
   let i := intOf toks
   let p : Params := {
     minStake := i "ms", maxVals := i "mv", unstakingTime := i "ut", window := i "w", minSignedRaw := i "mspw",
     jailDur := i "jd", maxAge := i "mea", sfDouble := i "sfds", sfDown := i "sfdt", feeBase := i "fee",
-    maxMemo := Posmint.Generated.defaultMaxMemoCharacters,
+    maxMemo := Posmint.Generated.defaultMaxMemoCharacters, txSigLimit := Posmint.Generated.defaultTxSigLimit,
     feeChangeParam := Posmint.Generated.govFeeChangeParam, feeDao := Posmint.Generated.govFeeDAOTransfer,
     feeUpgrade := Posmint.Generated.govFeeUpgrade }
   genesis { accs := accs, vals := vals, p := p, daoTokens := i "daot", daoOwner := kvOf toks "daoo", aclOwner := kvOf toks "aclo",
             paramNames := allParamNames, pool := mods.getD 0 "", feeAcc := mods.getD 1 "", posAcc := mods.getD 2 "",
             daoAcc := mods.getD 3 "", keys := (List.range keys.length).zip keys, nStored := (if kvOf toks "stored" == "" then keys.length else (intOf toks "stored").toNat),
             defaultMaxVals := Posmint.Generated.defaultMaxValidators,
-            signing := parseSigning toks, missed := parseMissed toks, accs2 := parseAccs2 toks }
+            signing := parseSigning toks, missed := parseMissed toks, accs2 := parseAccs2 toks,
+            keyNodes := keyNodesOf (kvOf toks "ksh") }
 
 def parseVotes (s : String) : List Vote :=
   if s == "-" || s == "" then [] else
